@@ -127,6 +127,10 @@ func (e *e2) control(op *Op, ctx *OpCtx) (res Res) {
 		if err != nil {
 			res.ErrText = err.Error()
 		}
+	case "HLCBurn":
+		for i := 0; i < op.Dur; i++ {
+			rosmar.VerifHLCNow()
+		}
 	case "OpenOther":
 		// another bucket of the process is created, written once and deleted again while the clients run
 		name := fmt.Sprintf("%s-other%d", e.w.Name, e.seq.Add(1))
